@@ -197,7 +197,7 @@ class MacroProcessor:
     def _extract_project_dates(self, content: str) -> None:
         """Extract project start/end dates for built-in macros."""
         # Look for project declaration: project id "name" date +duration
-        match = re.search(r'project\s+\w+\s+"[^"]*"\s+(\d{4}-\d{2}-\d{2})(?:\s+\+(\d+)([dwmy]))?', content)
+        match = re.search(r"""project\s+\w+\s+(?:"[^"]*"|'[^']*')\s+(\d{4}-\d{2}-\d{2})(?:\s+\+(\d+)([dwmy]))?""", content)
         if match:
             self._project_start = match.group(1)
             # Calculate project end from duration if present
